@@ -10,7 +10,9 @@ TrBegin == IsEvent("begin") /\ Consume /\ Begin(Ev.f)
 TrEnd == IsEvent("end") /\ Consume /\ End(Ev.f, Ev.res, Ev.consistent, Ev.preserved)
 (* a block the documentation says the library keeps (declared by the program, with the reason) leaves the ledger *)
 TrResidue == IsEvent("residue") /\ Consume /\ Ev.id \in live /\ live' = live \ {Ev.id} /\ UNCHANGED <<failed, incall, everfail>>
-TrQuiesce == IsEvent("quiesce") /\ Consume /\ Quiesce
+(* ... and what a failed call set up next to the allocator table is gone as well: no mapping of a shared-memory object and no descriptor *)
+(* more than before the program started                                                                                           *)
+TrQuiesce == IsEvent("quiesce") /\ Consume /\ Quiesce /\ (HasField(Ev, "maps") => Ev.maps = 0 /\ Ev.fds = 0)
 (* memory the C library allocated on behalf of a call (it does not pass through the allocator table): nothing unreachable is left *)
 TrLsan == IsEvent("lsan") /\ Consume /\ Ev.leaks = 0 /\ UNCHANGED lvars
 (* the child process that ran the program must have returned normally: no signal, no sanitizer report *)
